@@ -58,9 +58,8 @@ var alphaTypedJSON = []string{`{`, `}`, `[`, `]`, `,`, `null`, `1`, `"x"`, `"dat
 	`"media_attachments":`, `"external_video_id":`, `"created_at":`, `"resourceUrl":`, `"embedUrl":`, `"credits":`}
 var alphaXML = []string{`<a>`, `</a>`, `<a `, `href="http://a.b/c"`, `>`, `/>`, `<![CDATA[`, `]]>`, `&amp;`, `&`, `<?xml version="1.0"?>`,
 	`<!--`, `-->`, `<!DOCTYPE x [`, `http://a.b/c.png `, `<urlset xmlns="http://www.sitemaps.org/schemas/sitemap/0.9">`, `<loc>`, `"`}
-var alphaS3 = []string{`<ListBucketResult>`, `</ListBucketResult>`, `<Contents>`, `</Contents>`, `<Key>`, `</Key>`, `k/é %zz`,
-	`<Size>`, `</Size>`, `1`, `<IsTruncated>true</IsTruncated>`, `<NextContinuationToken>t</NextContinuationToken>`,
-	`<CommonPrefixes>`, `</CommonPrefixes>`, `<Prefix>`, `</Prefix>`, `<`}
+var alphaS3 = []string{`<Contents><Key>`, `</Key><Size>1</Size></Contents>`, `</Key><Size>0</Size></Contents>`, `a/b.txt`, ` `, `%zz`, `é`, `&amp;`, `../`, `?x=1#f`,
+	`<CommonPrefixes><Prefix>`, `</Prefix></CommonPrefixes>`, `<IsTruncated>true</IsTruncated>`, `<NextContinuationToken>t+/=</NextContinuationToken>`, `<Marker>`, `<`}
 var alphaURL = []string{`http://`, `a.b`, `/`, `:`, `@`, `[`, `]`, `?`, `#`, `%`, `%zz`, ` `, `..`, `\`, `"`, `é`, `=`, `&`, `xn--`, `1`}
 var alphaLink = []string{`<`, `>`, `;`, `, `, `,`, `rel=`, `"`, `=`, ` `, `http://a.b/c`, `x`}
 var alphaText = []string{`http://`, `https://a.b/c`, `www.a.b`, ` `, "\n", `.`, `(`, `)`, `<`, `é`, `\`, `@`, `:`}
@@ -392,7 +391,7 @@ func spaces() []space {
 		tokenSpace("typed-json-tokens", alphaTypedJSON, []string{"ina", "ts-status", "ts-lookup", "reddit-api"}, 3, 4, nil),
 		tokenSpace("xml-tokens", alphaXML, []string{"xml"}, 3, 5, nil),
 		tokenSpace("xml-tokens-sniffed", alphaXML, []string{"none"}, 3, 4, nil),
-		tokenSpace("s3-tokens", alphaS3, []string{"s3", "s3v2"}, 3, 4, func(s string) string { return "<ListBucketResult>" + s }),
+		tokenSpace("s3-tokens", alphaS3, []string{"s3", "s3v2"}, 3, 5, func(s string) string { return "<ListBucketResult>" + s + "</ListBucketResult>" }),
 		tokenSpace("text-tokens", alphaText, []string{"html", "text"}, 4, 5, nil),
 		tokenSpace("html-tokens", alphaHTML, []string{"html"}, 4, 5, nil),
 		tokenSpace("html-tokens-sites", alphaHTML, []string{"reddit-html", "ts-post", "text", "ina"}, 3, 4, nil),
